@@ -376,6 +376,13 @@ def run_ecase(case):
                                                          for i, r in zip(b.ids, b.data)]]
                                 for t, b in f.items()]
         out['filter_summary'] = summ(f)
+        # generate_elemental_attribute: values handed in by id (in the order of case['g'])
+        gids = case.get('g') or []
+        if gids:
+            g = e.generate_elemental_attribute('v', np.array(gids), np.array([[float(i % 100003 * 3 + 1)] for i in gids]))
+            out['generated'] = [[ELEMENT_TYPES.index(t), [[int(i), [num(v) for v in np.ravel(r)]]
+                                                         for i, r in zip(b.ids, b.data)]] for t, b in g.items()]
+            out['generated_summary_ids'] = [int(i) for i in g.ids]
     return out
 
 
